@@ -16,6 +16,19 @@ CHECKS = {
    text="All histories of disciplined consumers (usage <= last grant) up to the depth bound, from initial balances around the boundaries of one requested quota; after every step: no negative balance, grant <= what balance+unconsumed reservation buys, final-unit indication present.",
    ref="6 C06", note=TB_E1),
 }
+
+TB_E2 = "reference encoder / TLV walker / TS 32.297 reader written from the standards by the author of the check; Go reflect; bounds (deviation bound, per-type caps, exhaustive ranges) as reported in the evidence file"
+CHECKS.update({
+ "C04": dict(engine=E2, technique="bounded-exhaustive input enumeration (all single + pairwise deviations per type, exhaustive integer/tag/length ranges) against an independent X.690 reference encoder and TLV walker",
+   text="Every exported cdrType type (registry generated from the tree), every primitive and ~1800 generated struct types over the ber tag language are marshalled for the base value and all values within 2 deviations, plus all integers of <= 3 content octets region, tag numbers and lengths; output must equal the reference encoder byte for byte, be one well-formed TLV, and never panic.",
+   ref="6 C04", note=TB_E2),
+ "C05": dict(engine=E2, technique="bounded-exhaustive input enumeration; decode(encode(v)) == v on the real codec for every enumerated value",
+   text="Same value space as C04; every value the codec marshals is unmarshalled into a fresh variable with the same parameters and compared structurally.",
+   ref="6 C04/C05", note=TB_E2),
+ "C16": dict(engine=E2, technique="exhaustive enumeration of all short byte strings and of the one-mutation neighbourhood of all enumerated valid encodings, into every target type",
+   text="All byte strings up to 2 (quick) / 3 (thorough) bytes into every cdrType, primitive and sampled generated type; every truncation, bit flip and length-field substitution of every valid base/single-deviation encoding; each decode runs on a capacity-trimmed slice under recover; malformed classes must be reported as errors.",
+   ref="6 C16", note=TB_E2),
+})
 NA_REASON = "check under construction (see DESIGN.md section 6)"
 
 m = {"version": 1, "setup_cmd": "./setup.sh",
